@@ -457,24 +457,43 @@ let parse_hop (tok : string) : hop =
    number on both sides):  K count = len;  Z last = next_back;  G / D collect / fold = cnt+1 x next;  R / E rev-collect / rfold =
    cnt+1 x next_back *)
 let expand_hops (cnt : int) (args : string list) : hop list =
-  let nslots = ref 1 in
+  (* logical slot (the index the corpus uses, = index in the implementation's vector of iterators) -> physical slot of the model.
+     `F<a>><b>` is `its[b].clone_from(&its[a])`: the model clones a into a fresh physical slot and lets logical b name it *)
+  let phys = ref [| 0 |] in
+  let nphys = ref 1 in
+  let push_logical p = phys := Array.append !phys [| p |] in
+  let fresh () = let m = !nphys in incr nphys; m in
   List.concat_map (fun tok ->
-    if tok.[0] = 'c' then (incr nslots; [parse_hop tok])
-    else
+    if tok.[0] = 'c' then begin
+      let j = int_of_string (String.sub tok 1 (String.length tok - 1)) in
+      let m = fresh () in
+      let h = HClone (nat_of_int (!phys).(j)) in
+      push_logical m; [h]
+    end else if tok.[0] = 'F' then begin
+      let gt = String.index tok '>' in
+      let a = int_of_string (String.sub tok 1 (gt - 1)) and b = int_of_string (String.sub tok (gt + 1) (String.length tok - gt - 1)) in
+      let m = fresh () in
+      let h = HClone (nat_of_int (!phys).(a)) in
+      (!phys).(b) <- m; [h]
+    end else
       let ci = String.index tok ':' in
-      let slot = String.sub tok 0 ci in
+      let slot = int_of_string (String.sub tok 0 ci) in
       let op = tok.[ci + 1] in
       if String.contains "KZGDRE" op then begin
-        let m = !nslots in
-        incr nslots;
+        let m = fresh () in
+        let h = HClone (nat_of_int (!phys).(slot)) in
+        push_logical m;
         let on o = HOp (nat_of_int m, o) in
-        HClone (nat_of_int (int_of_string slot)) ::
+        h ::
         (match op with
          | 'K' -> [on OpLen]
          | 'Z' -> [on OpNextBack]
          | 'G' | 'D' -> List.init (cnt + 1) (fun _ -> on OpNext)
          | _ -> List.init (cnt + 1) (fun _ -> on OpNextBack))
-      end else [parse_hop tok]) args
+      end else
+        (match parse_hop tok with
+         | HOp (_, o) -> [HOp (nat_of_int (!phys).(slot), o)]
+         | h -> [h])) args
 let q_iterops (k : int) (it : item) (args : string list) : string =
   res_str (fun c ->
     let cnt = iter_count c in
